@@ -41,7 +41,8 @@ template <typename S, int K, bool BIG> struct Shapes {
     return s * e == v * s;
   }
   static Constraint_System rcs(int n, const std::vector<int>& pt, int m) { Constraint_System cs; for (int i = 0; i < m; ++i) cs.insert(rcon(n, pt)); return cs; }
-  static S rshape(int n, int m = -1) {
+  static S rshape(int n, int m = -1, bool may_be_empty = true) {
+    if (n == 0) return (may_be_empty && coin(30)) ? S(0, EMPTY) : S(0);
     if (m < 0) m = rnd(1, 5);
     std::vector<int> pt = rpoint(n);
     S s(n);
@@ -50,7 +51,7 @@ template <typename S, int K, bool BIG> struct Shapes {
     if (st == 0) (void) s.is_empty();                   // closure / emptiness computed
     else if (st == 1) (void) s.minimized_constraints(); // reduced form computed
     else if (st == 2) { (void) s.is_empty(); s.add_constraint(rcon(n, pt)); }   // closed, then perturbed
-    else if (st == 3 && coin(30)) s = S(n, EMPTY);
+    else if (st == 3 && may_be_empty && coin(30)) s = S(n, EMPTY);
     return s;
   }
   static S fresh(int n) { S s(n); if (n > 0) { s.add_constraint(Variable(0) >= -1); s.add_constraint(Variable(n - 1) <= 4); } return s; }
@@ -183,7 +184,8 @@ template <typename S, int K, bool BIG> struct Shapes {
     Variables_Set fold_vs; for (int i = 0; i < n; ++i) if (i != (int) v.id() && coin()) fold_vs.insert(Variable(i));
     PFunc pf; pf.m.assign(n, -1);
     { std::vector<int> keep; for (int i = 0; i < n; ++i) if (coin(70)) keep.push_back(i); std::vector<int> img; for (size_t i = 0; i < keep.size(); ++i) img.push_back((int) i); std::shuffle(img.begin(), img.end(), hx::rng()); for (size_t i = 0; i < keep.size(); ++i) pf.m[keep[i]] = img[i]; }
-    Constraint_System wcs; if (coin()) wcs.insert(rcon(n, rpoint(n)));
+    Constraint_System wcs;   // the guard of wrap_assign may only mention wrapped variables
+    if (coin() && !vs.empty()) { Variable wv(*vs.begin()); wcs.insert(wv >= rnd(-3, 0)); if (coin()) wcs.insert(wv <= rnd(1, 200)); }
     c.run([&] {
       switch (OP) {
       case EMBED: s.add_space_dimensions_and_embed(m); break;
@@ -262,7 +264,7 @@ template <typename S, int K, bool BIG> struct Shapes {
   // ---------------------------------------------------------------- rejected calls
   // (expected types: the \exception clauses of BD_Shape_defs.hh / Octagonal_Shape_defs.hh / Box_defs.hh)
   template <typename F> static void rej(RCtx& r, const char* expected, F f) {
-    S s = rshape(2), t = rshape(3); S s0(s), t0(t);
+    S s = rshape(2, -1, false), t = rshape(3, -1, false); S s0(s), t0(t);     // non-empty receivers: the class of the key is then a function of the call alone
     r.call(expected, [&] { f(s, t); });
     r.unchanged("receiver", s, s0); r.unchanged("argument", t, t0);
   }
